@@ -19,6 +19,7 @@ EXPLANATION = (
     "reading the mod value directly would ignore an explicit override. Numerical equality of results and lazer per-mod "
     "settings are NOT decided."
     " R3: no accessor lets the iteration order of the mod collection decide between mutually exclusive mod families (DT/NC vs HT/DC, HR vs EZ): a find/find_map over the mod list whose closure answers for kinds of both sides is reported, earlier dominating searches and filter predicates taken into account; rosu-mods' legacy_clock_rate (such a search) is not used."
+    " R4: every attribute-builder chain that a calculator drives to build()/hit_windows() is configured through .difficulty(..) — the one override-aware funnel — and no individual setting setter precedes it (private helpers read through)."
 )
 
 GM = 'model::mods::GameMods'
@@ -169,6 +170,9 @@ def run(ctx):
         ctx.violation('C08-R1', 'anchor-missing:reflection', 'GameMods::reflection not found')
     else:
         ctx.saw(rf)
+        import inline
+        rf0 = rf
+        rf = inline.inlined(F, rf, depth=2)        # private helpers turning the membership test into the reflection are read through
         P = prov.prov_of(rf)
         sws = arms.enum_switches(rf)
         dom = rf.cfg.dom()
@@ -181,15 +185,22 @@ def run(ctx):
                 reg = arms.region(rf, tgt)
                 for bi in sorted(reg):
                     for si, s in enumerate(rf.blocks[bi]['s']):
-                        if s['k'] == 'assign' and s['p']['l'] == 0 and 'proj' not in s['p']:
-                            v = prov.strip(P.rvalue(s['rv'], bi, si))
-                            if v[0] == 'agg' and v[2].endswith('Reflection') and v[3] == 'Vertical':
-                                facts = [has_mod_summary(c) for c, lab in arms.bool_facts(rf, bi) if lab == 'true']
-                                facts = [x for x in facts if x and x[0] == 'contains']
-                                if facts:
-                                    hits[label] = facts[-1][1]
-        # lazer arm: closure matching on GameMod variants
-        for c in F.all_closures_of(rf):
+                        if s['k'] == 'assign' and s['rv']['k'] == 'agg' and s['rv'].get('variant') == 'Vertical' and (s['rv'].get('adt') or '').endswith('Reflection'):
+                            facts = [has_mod_summary(c) for c, lab in arms.bool_facts(rf, bi) if lab == 'true']
+                            facts = [x for x in facts if x and x[0] == 'contains']
+                            if facts:
+                                hits[label] = facts[-1][1]
+        # lazer arm: a closure — or a local function handed to the search by name — matching on GameMod variants
+        elem_fns = list(F.all_closures_of(rf0))
+        for b in rf0.blocks:
+            ops = list(b['t'].get('args', [])) if b['t']['k'] == 'call' else []
+            for o in ops:
+                if isinstance(o, dict) and o.get('k') == 'const' and 'fn' in o and o['fn'].get('local'):
+                    g = F.fn(o['fn'].get('path') or '')
+                    if g is not None:
+                        elem_fns.append(g)
+        for c in elem_fns:
+            ctx.saw(c)
             for bb, cinfo in arms.enum_switches(c):
                 Pc = prov.prov_of(c)
                 for lab, tgt in cinfo['edges']:
@@ -198,10 +209,13 @@ def run(ctx):
                             if s['k'] == 'assign' and s['rv']['k'] == 'agg' and s['rv'].get('variant') == 'Vertical' and s['rv']['adt'].endswith('Reflection'):
                                 if lab.startswith('HardRock'):
                                     hits['Lazer'] = 'HardRock'
+        rf = rf0
         for label in ('Lazer', 'Intermode', 'Legacy'):
             ctx.require(hits.get(label) == 'HardRock', 'C08-R1', 'reflection:' + label, '%s arm: HardRock -> Reflection::Vertical' % label, rf.where(),
                         bad='reflection(): in the %s arm Reflection::Vertical is tied to `%s`, not HardRock' % (label, hits.get(label)))
     r3_iteration_order(ctx, F)
+    import funnel
+    funnel.check(ctx, F, 'C08-R4')
     # ---- R2 who-may-call
     callers = F.callers()
     cr = [c for c in callers.get('model::mods::GameMods::clock_rate', [])]
@@ -327,6 +341,7 @@ def const_table(F, cpath):
         return None
     blocks = c['mir']['blocks']
     tuples = {}
+    units = {}
     order = None
     for b in blocks:
         for s_ in b['s']:
@@ -334,7 +349,10 @@ def const_table(F, cpath):
                 continue
             rv = s_['rv']
             if rv['k'] == 'agg' and rv.get('ak') == 'tuple':
-                tuples[s_['p']['l']] = rv['ops']
+                # a unit enum variant built into a temporary first (`_2 = Intermode::OneKey; _1 = (move _2, 1.0)`) reads as that variant
+                tuples[s_['p']['l']] = [units.get(o['p']['l'], o) if o.get('k') in ('move', 'copy') and 'proj' not in o['p'] else o for o in rv['ops']]
+            elif rv['k'] == 'agg' and rv.get('ak') == 'adt' and rv.get('enum') and not rv.get('ops'):
+                units[s_['p']['l']] = {'k': 'const', 'def': '%s::%s' % (rv['adt'], rv['variant']), 'val': rv['variant']}
             elif rv['k'] == 'agg' and rv.get('ak') == 'array' and s_['p']['l'] == 0:
                 order = rv['ops']
     if order is None:
@@ -355,7 +373,11 @@ def table_driven_arm(F, mk, label):
     v = vals.get(label)
     if v is None:
         return None
+    import combin
     v = prov.strip(v, names={'copied', 'cloned'})
+    if v[0] == 'call' and v[1].get('local') and not v[1].get('trait') and v[1].get('name') not in ('map', 'find'):
+        # the search lives in a shared local helper that receives the membership test as a closure: read its body with the arguments bound
+        v = prov.strip(prov.inline_call(F, v), names={'copied', 'cloned'})
     if not (v[0] == 'call' and v[1].get('name') == 'map' and len(v[2]) == 2):
         return None
     fnd, proj = v[2]
@@ -370,16 +392,16 @@ def table_driven_arm(F, mk, label):
     pg, jg = F.fn(pred[2]), F.fn(proj[2])
     if pg is None or jg is None:
         return None
-    prv = prov.prov_of(pg).return_value()
+    # predicate with its captures bound (and a captured membership closure applied): contains(<the arm's mods>, element.<i>)
+    prv = prov.strip(combin.expand(F, prov.subst(prov.prov_of(pg).return_value(), {1: pred})), names=set())
     jrv = prov.strip(prov.prov_of(jg).return_value())
-    # predicate: contains(<the arm's mods>, element.<i>) ; projection: element.<j>
-    if not (prv[0] == 'call' and prv[1].get('name') == 'contains' and len(prv[2]) == 2):
+    if not (prv[0] == 'call' and prv[1].get('name') in ('contains', 'contains_intermode') and len(prv[2]) == 2):
         return None
     recv, elem = prv[2]
-    if not (recv[0] == 'field' and recv[1] == ('param', 1) and elem[0] == 'field' and elem[1] == ('param', 2) and str(elem[2]).isdigit()):
+    elem = prov.strip(elem)
+    if not (elem[0] == 'field' and elem[1] == ('param', 2) and str(elem[2]).isdigit()):
         return None
-    up = pred[4].get(recv[2])
-    if up is None or not any(n[0] == 'variant' and n[2] == label for n in prov.walk(up, limit=20)):
+    if not any(n[0] == 'variant' and n[2] == label for n in prov.walk(recv, limit=40)) or any(n == ('param', 2) for n in prov.walk(recv, limit=40)):
         return None
     if not (jrv[0] == 'field' and jrv[1] == ('param', 2) and str(jrv[2]).isdigit()):
         return None
